@@ -233,14 +233,15 @@ fn parse_integer(string: &str, require_sign: bool) -> Result<Option<Integer>, er
         };
 
         // Re-checked later on convert to smaller int types
-        if integer > IntegerValue::MAX / prefix.radix as IntegerValue {
+        let next = integer
+            .checked_mul(prefix.radix as IntegerValue)
+            .and_then(|value| value.checked_add(digit as IntegerValue));
+        let Some(next) = next else {
             return Err(error::Value::IntegerTooLarge {
                 max: i16::MAX as u16,
             });
-        }
-
-        integer *= prefix.radix as IntegerValue;
-        integer += digit as IntegerValue;
+        };
+        integer = next;
     }
 
     assert!(
